@@ -169,3 +169,33 @@ def emit(R, tags=None):
                      "text of exception messages", "#ifdef Tasmanian_ENABLE_GPU blocks"]
     info["headers"] = headers
     return "\n".join(out) + "\n", info
+
+
+def emit_copyGrid(R):
+    """TasmanianSparseGrid::copyGrid(const TasmanianSparseGrid *source, int outputs_begin, int outputs_end) with a second ghost receiver."""
+    text = X.strip_comments(X.read_source(CPP))
+    (p,) = X.cut(CPP, r'void\s+TasmanianSparseGrid::copyGrid\s*\(\s*const\s+TasmanianSparseGrid\s*\*source\s*,\s*int\s+outputs_begin\s*,\s*int\s+outputs_end\s*\)', text)
+    chdr = "void TSGW_copyGrid(TSG *self, const TSG *source, int outputs_begin, int outputs_end)"
+    b = p.body
+    b = X.balanced_call_sub(R, "R10-copy-ctor", b, r'\bUtils::make_unique<\s*(\w+)\s*>\s*(?=\()',
+                            lambda m, a: "copy_grid(self, K_%s, source, outputs_begin, outputs_end)" % m.group(1))
+    b = R.sub("R10-this", r'\bsource\s*==\s*this\b', 'source == self', b)
+    b = R.sub("R10-local-grid", r'\bTasmanianSparseGrid\s+temp\s*;', 'TSG temp; tsg_default(&temp);', b)
+    b = R.sub("R10-self-call", r'\btemp\.copyGrid\(\s*source\s*,\s*outputs_begin\s*,\s*outputs_end\s*\)', 'TSGW_copyGrid(&temp, source, outputs_begin, outputs_end)', b)
+    b = R.sub("R10-self-call", r'(?<![\w>.:])copyGrid\(\s*&temp\s*\)', 'TSGW_copyGrid(self, &temp, 0, -1)', b)
+    b = R.sub("R10-source-call", r'\bsource->(getNumOutputs|empty|isGlobal|isSequence|isLocalPolynomial|isWavelet|isFourier)\(\)', r'TSG_\1(source)', b)
+    b = R.sub("R10-source-member", r'\bsource->domain_transform_a\.size\(\)', 'source->transform_size', b)
+    b = R.sub("R10-self-call", r'(?<![\w>.:])setDomainTransform\(\s*source->domain_transform_a\s*,\s*source->domain_transform_b\s*\)', 'TSG_setDomainTransform_from(self, source)', b)
+    b = R.sub("R10-member-call", r'(?<![\w>.:])clear\s*\(\s*\)', 'TSG_clear(self)', b)
+    b = R.sub("R10-member-call", r'(?<![\w>.:])getNumOutputs\s*\(\s*\)', 'TSG_getNumOutputs(self)', b)
+    for mname in ("llimits", "using_dynamic_construction", "conformal_asin_power"):
+        b = R.sub("R10-member", r'(?<![\w>.])%s\b' % mname, 'self->' + mname, b)
+    b = R.sub("R10-member", r'(?<![\w>._])base\s*=(?!=)', 'self->base =', b)
+    b = R.sub("R9-propagate", r'(self->base\s*=[^;]*;)', r'\1 if (tsg_exc) return;', b)
+    X.check_leftover(chdr + b, "copyGrid")
+    R.require({"R10-copy-ctor": 5, "R10-source-call": 7, "R10-member": 4})
+    out = '#line %d "%s"\n%s%s\n' % (p.line, X.REPO + "/" + p.rel, chdr, b)
+    return out, {"functions": [{"name": "TasmanianSparseGrid::copyGrid", "file": p.rel, "line": p.line, "loops": 0}], "rules_fired": {k: v for k, v in R.counts.items() if v},
+                 "fidelity": X.fidelity(p.src_body, b, extra_vocab=["source", "make_unique", "acceleration", "get", "base", "clear", "empty", "getNumOutputs", "isGlobal", "isSequence", "isLocalPolynomial", "isWavelet", "isFourier",
+                                                                    "GridGlobal", "GridSequence", "GridLocalPolynomial", "GridWavelet", "GridFourier", "domain_transform_a", "domain_transform_b", "size", "setDomainTransform",
+                                                                    "llimits", "using_dynamic_construction", "conformal_asin_power", "outputs_begin", "outputs_end"], slack=30)}
